@@ -205,9 +205,11 @@ def plant_error(r, docs):
         a, b = r.sample(nodes, 2)
         name = a.anchor or 'dup'
         a.anchor = b.anchor = name
+        a.sp = b.sp = False          # a brace-less single-pair mapping cannot carry properties: write it with braces
         return kind, 'ComposerError'
     if kind == 'unknown_tag':
         n = r.choice(nodes)
+        n.sp = False
         n.tag = r.choice(['!unknown', 'tag:example.org,2011:zzz', gdoc.CORE + 'nosuch', gdoc.CORE + 'python/nosuch'])
         return kind, 'ConstructorError'
     return kind, 'ComposerError'
